@@ -113,11 +113,47 @@ def run(pid, cfg, tier, rdir):
     except Exception:
         j = None
     if j is None:
-        # build failure of the harness crate: the expansion does not compile
-        errs = re.findall(r"^error(?:\[E\d+\])?: .*$", p.stderr, re.M)
-        res["undecided"].append("K: harness crate did not build / kani produced no result: %s" % "; ".join(errs[:4]))
-        res["build_errors"] = errs
+        # build failure of the harness crate: the expansion of some program does not compile
+        allout = p.stdout + "\n" + p.stderr
+        errs = re.findall(r"^error(?:\[E\d+\])?: .*$", allout, re.M)
+        res["build_errors"] = errs[:20]
         res["coverage"] = {"harnesses": len(hs), "wall_s": round(wall, 1)}
+        blocks = re.split(r"\n(?=error)", allout)
+        src_lines = open(os.path.join(d, "src", "lib.rs")).read().split("\n")
+
+        def harness_at(line):
+            k = min(line, len(src_lines)) - 1
+            while k >= 0:
+                m = re.match(r"pub fn (\w+)\(\)", src_lines[k])
+                if m:
+                    return m.group(1)
+                k -= 1
+            return None
+        hit = {}
+        for bl in blocks:
+            if not bl.startswith("error") or "originates in the macro" not in bl:
+                continue
+            m = re.search(r"--> src/lib\.rs:(\d+):", bl)
+            if not m:
+                continue
+            hn = harness_at(int(m.group(1)))
+            if hn:
+                hit.setdefault(hn, []).append(bl.strip()[:1500])
+        by = {h.name: h for h in hs}
+        if cfg.get("compile_clause") and hit:
+            # the programs are well-typed by construction (their plain-Rust reference compiles in the same crate and the
+            # crate builds on the unchanged tree): an error originating in the macro violates "expands to code that compiles"
+            for hn, bls in list(hit.items())[:12]:
+                h = by.get(hn)
+                path = os.path.join(rdir, "K-%s.txt" % hn)
+                with open(path, "w") as fh:
+                    fh.write("property: %s\nfailed obligation: the real expansion of a well-typed program must compile (harness `%s`)\n" % (pid, hn))
+                    fh.write("failing input (program): %s\n\nrustc:\n%s\n" % (h.program if h else "?", "\n\n".join(bls[:3])))
+                    fh.write("\nreplay: cd %s && cargo check --offline --lib\n" % d)
+                res["violations"].append({"engine": "K", "obligation": hn + " (compile)", "key": "K:%s" % hn, "replay": path, "found_input": True,
+                                          "summary": bls[0].split("\n")[0][:160]})
+            return res
+        res["undecided"].append("K: harness crate did not build / kani produced no result: %s" % "; ".join(errs[:4]))
         return res
     by = {h.name: h for h in hs}
     results = {r["harness_id"].split("::")[-1]: r for r in j.get("verification_results", {}).get("results", [])}
@@ -171,6 +207,11 @@ def run(pid, cfg, tier, rdir):
         real = [c for c in failed_checks if "unwinding assertion" not in c.get("description", "")]
         if not real:
             res["undecided"].append("K: harness %s: unwinding assertion failed (bound too small)" % name)
+            continue
+        tool = [c for c in real if "Kani does not support" in c.get("description", "") or c.get("category") == "unsupported_construct"
+                or "is not currently supported by Kani" in c.get("description", "")]
+        if tool:
+            res["undecided"].append("K: harness %s: tool limit: %s" % (name, tool[0].get("description", "")[:120]))
             continue
         # a failed check is a violation; replay the counterexample natively against the real expansion
         playback = playbacks.get(name, {})
